@@ -30,6 +30,10 @@ delta / delta_unit / rel_delta_tol / all_pairs passed to the like-named
 parameters. C02.6: reducer and unit per relation (oracle table). C02.7:
 pipeline order and option wiring of rpe()/run(), get_delta_unit table, and
 both trajectories reduced with the identical [0] + delta_ids after the metric.
+C02.11: the requested alignment is the Umeyama fit over all / the first n
+pose pairs, estimate onto reference (instances of C04.1-3); every pipeline
+step of rpe() runs exactly when its own option asks for it, whatever the other
+options are.
 """
 UNDECIDED = [
     "numerical agreement of the error values with the definition; drift "
